@@ -28,6 +28,7 @@ SUP_PAIRS = {
     'unittests__test_gnudebugaltlink1.debug': ('unittests__test_gnudebugaltlink.common', None),
 }
 
+_SOLO_MEMO = {}   # (file, single-element op, full) -> solo result; pure function of the tree, per process
 _ST = {}     # prepared state: files, per-file dict(data, peers, follow, pool, refs, positions)
 
 
@@ -59,6 +60,10 @@ def reference(fi, op, full=False):
     if op[0] == 'x2':
         ref, t = reference(fi, op[1], full)
         return ref + ref, 2 * t
+    if op[0] == 'ver_iter' and op[2] != 'eager':
+        vr = _ver_reference(fi, op, full)
+        if vr is not None:
+            return vr
     ew = poolmod.ELEMENTWISE.get(op[0])
     if ew:
         ai, npre = ew
@@ -68,7 +73,13 @@ def reference(fi, op, full=False):
         for e in elems:
             single = list(op)
             single[ai] = [e]
-            r, t = solo(fi, single, full)
+            mk = (fi['name'], json.dumps(single), full)
+            if mk in _SOLO_MEMO:
+                r, t = _SOLO_MEMO[mk]
+            else:
+                r, t = solo(fi, single, full)
+                if len(_SOLO_MEMO) < 20000:
+                    _SOLO_MEMO[mk] = (r, t)
             total += t
             if out is None:
                 out = list(r)
@@ -78,6 +89,72 @@ def reference(fi, op, full=False):
                 out.extend(r[npre:])
         return (out or []), total
     return solo(fi, op, full)
+
+
+def _assembled(op):
+    """Is the reference of this op assembled from other solo runs (so that running the op itself, alone, is a check)?"""
+    return op[0] == 'x2' or op[0] in poolmod.ELEMENTWISE or op[0] == 'ver_iter' or (op[0] == 'dwarf_again' and _assembled(op[1]))
+
+
+def _held_history_check(fi, op, full_ref):
+    """The op executed alone, as a whole, against its assembled reference: a history of several queries on one held
+    object (or the same query twice, or auxiliary iterators consumed late) with no scheduler involved."""
+    got, _t = solo(fi, op, full=True)
+    n = min(len(got), len(full_ref))
+    for i in range(n):
+        if got[i] != full_ref[i]:
+            return dict(key='%s|held-object-history' % _kind(op), op=op, check='the op alone vs its reference assembled from single-query solo runs on fresh objects',
+                        step=i, expected=jsonable(full_ref[i], 1200), observed=jsonable(got[i], 1200))
+    if len(got) != len(full_ref):
+        return dict(key='%s|held-object-history' % _kind(op), op=op, check='number of steps: the op alone vs its assembled reference',
+                    step=n, expected=len(full_ref), observed=len(got))
+    return None
+
+
+def _ver_reference(fi, op, full):
+    """ver_iter: what each auxiliary iterator yields must not depend on *when* it is consumed.  The expected step list
+    for any consumption policy is re-ordered from the eager solo run."""
+    _k, i, policy, take = op
+    eager, t = solo(fi, ['ver_iter', i, 'eager', None], True)
+    if len(eager) < 2 or any(isinstance(o, tuple) and o and o[0] == 'EXC' for o in eager):
+        return None
+    sec = eager[0]
+    groups = []
+    k = 1
+    while k < len(eager) and eager[k] != END:
+        v = eager[k]
+        k += 1
+        aux = []
+        while k < len(eager):
+            aux.append(eager[k])
+            k += 1
+            if aux[-1] == END:
+                break
+        groups.append((v, aux))
+    ended = k < len(eager) and eager[k] == END
+    if not ended:
+        return None
+    out = [sec]
+    pending = []
+    n = 0
+    while take is None or n < take:
+        if n >= len(groups):
+            out.append(END)
+            break
+        v, aux = groups[n]
+        out.append(v)
+        n += 1
+        if policy == 'eager':
+            out += aux
+        elif policy == 'lazy-after-next':
+            if pending:
+                out += pending.pop()
+            pending.append(aux)
+        elif policy == 'lazy-at-end':
+            pending.append(aux)
+    for aux in pending:
+        out += aux
+    return (out if full else [cdigest(o) for o in out]), t
 
 
 def _is_exc(o, full):
@@ -98,11 +175,36 @@ def _prep_file(task):
         return res
     r = substream(h64(seed, 'pool', name, focus or ''), 'pool')
     gen = poolmod.Gen(cat, r)
+    check_only = []
     if want_ops is not None:
         ops = want_ops
     else:
         ops = gen.pool(110 if tier == 'quick' else 320, focus)
+        if focus is None:
+            have = set(json.dumps(o) for o in ops)
+            # count-based caps (never time-based: the set of ops must be a function of seed and file only)
+            size = len(fi['data'])
+            if tier == 'quick':
+                ncap = 600 if size <= 12 * 1024 else (300 if size <= 24 * 1024 else 150)
+            else:
+                ncap = 3000 if size <= 64 * 1024 else 600
+            sysops = [o for o in gen.systematic(ncap) if json.dumps(o) not in have]
+            join = 90 if tier == 'quick' else 400
+            ops += sysops[:join]
+            check_only = sysops[join:]
     res['kinds'] = gen.kinds
+    # systematic ops beyond the pool cap: checked here (the op alone vs its assembled reference), not pooled
+    for op in check_only:
+        try:
+            full, ticks = reference(fi, op, full=True)
+            if full and full[-1] in (('SOLO-BUDGET',), ('TOO-MANY-STEPS',)):
+                continue
+            hv = _held_history_check(fi, op, full) if _assembled(op) else None
+            if hv is not None:
+                res['cross'].append(hv)
+            res['checked_only'] = res.get('checked_only', 0) + 1
+        except Exception:
+            pass
     for op in ops:
         key = json.dumps(op)
         try:
@@ -118,6 +220,10 @@ def _prep_file(task):
         res['pool'].append(op)
         res['refs'][key] = [cdigest(o) for o in full]
         res['ticks'][key] = ticks
+        if want_ops is None and _assembled(op):
+            hv = _held_history_check(fi, op, full)
+            if hv is not None:
+                res['cross'].append(hv)
         if op[0] != 'x2' and want_ops is None:
             for model, idx, exp, got in poolmod.cross(cat, op, full):
                 res['cross'].append(dict(key='%s|cross|%s' % (op[0], model), op=op, check='random access vs sequential catalogue: ' + model,
@@ -377,7 +483,8 @@ def execute_spec(spec):
     for c in ctxs[1:]:
         c.clock = ctxs[0].clock
         for st in c.streams.values():
-            st.clock = ctxs[0].clock
+            if hasattr(st, 'clock'):
+                st.clock = ctxs[0].clock
     ctx = ctxs[0]
     multi = len(ctxs) > 1
 
@@ -627,9 +734,14 @@ def _execute_cross(spec):
     if full and full[-1] in (('SOLO-BUDGET',), ('TOO-MANY-STEPS',)):
         violations.append(dict(key='%s|solo-does-not-terminate' % _kind(op), check='solo execution exceeded its budget',
                                expected='terminates', observed=str(full[-1]), op=op))
-    for model, idx, exp, got in poolmod.cross(cat, op, full):
-        violations.append(dict(key='%s|cross|%s' % (op[0], model), check='random access vs sequential catalogue: ' + model,
-                               step=idx, expected=jsonable(exp, 1500), observed=jsonable(got, 1500), op=op))
+    if _assembled(op):
+        hv = _held_history_check(fi, op, full)
+        if hv is not None:
+            violations.append(hv)
+    if op[0] != 'x2':
+        for model, idx, exp, got in poolmod.cross(cat, op, full):
+            violations.append(dict(key='%s|cross|%s' % (op[0], model), check='random access vs sequential catalogue: ' + model,
+                                   step=idx, expected=jsonable(exp, 1500), observed=jsonable(got, 1500), op=op))
     return dict(spec=spec, violations=violations, digest=pdigest([cdigest(o) for o in full]), nontrivial=False,
                 evaluations=1, sim_time=ticks, faults={}, probes={'cross_replays': 1}, sample=None)
 
